@@ -71,7 +71,9 @@ class Obl:
     def holds(self, fn=None, node=None, instance: str = "", construct=None):
         return self._mk(HOLDS, fn, node, instance, "", construct=construct)
 
-    def violated(self, fn=None, node=None, reason: str = "", instance: str = "", key: str = "", construct=None, sure: bool = False):
+    def violated(self, fn=None, node=None, reason: str = "", instance: str = "", key: str = "", construct=None, sure: bool = False, shape_free: bool = False):
+        # shape_free=True: the rule finds a construct (a memo table, a shared container) wherever it is and does not
+        # rely on the function still having the pinned algorithm's shape: the rewrite gate does not apply
         # sure=True: the rule has positive evidence that does not depend on seeing the whole function (e.g. it looked
         # INTO the helper it accuses): the two reticence policies below do not apply
         if sure:
@@ -85,7 +87,7 @@ class Obl:
                                 f"(not accused: `{fn.qualname}` delegates to the new helper(s) {res}, which the rules cannot see through) {reason}")
             # A function of which less than 40% survives from the pinned tree has been REWRITTEN, not edited: the rules
             # were written against the pinned algorithm's shape and are not trusted to accuse a different algorithm.
-            sv = self.ctx.prog.survives(fn)
+            sv = 1.0 if shape_free else self.ctx.prog.survives(fn)
             if sv < self.ctx.prog.REWRITE_THRESHOLD:
                 return self._mk(UNDECIDED, fn, node, instance,
                                 f"(not accused: only {int(sv * 100)}% of `{fn.qualname}` survives from the pinned tree - rewritten rather than edited; needs review) {reason}")
